@@ -440,7 +440,12 @@ func init() {
 		p := args[0].(*Value)
 		th.schedPoint("wg.Add")
 		st := m.wgState(p)
-		st.n += m.asInt(args[1])
+		delta := m.asInt(args[1])
+		if delta > 0 && st.n == 0 && st.waiters > 0 {
+			// as the runtime does: a counter leaving zero while a Wait is in progress
+			panic(targetPanic{v: m.runtimeError("sync: WaitGroup misuse: Add called concurrently with Wait"), desc: "panic: sync: WaitGroup misuse: Add called concurrently with Wait"})
+		}
+		st.n += delta
 		if st.n < 0 {
 			panic(targetPanic{v: m.runtimeError("sync: negative WaitGroup counter"), desc: "panic: sync: negative WaitGroup counter"})
 		}
@@ -464,7 +469,9 @@ func init() {
 		p := args[0].(*Value)
 		th.schedPoint("wg.Wait")
 		st := m.wgState(p)
+		st.waiters++
 		th.block("wg.Wait", func() bool { return st.n == 0 })
+		st.waiters--
 		th.hbAcquire(st.vc)
 		return nil
 	}
@@ -757,8 +764,9 @@ func init() {
 }
 
 type wgState struct {
-	n  int64
-	vc []int
+	n       int64
+	vc      []int
+	waiters int
 }
 
 func (m *Machine) wgState(p *Value) *wgState {
